@@ -42,9 +42,38 @@ Section LfudaBridge.
            | H : true = false |- _ => discriminate H
            | H : false = true |- _ => discriminate H
            end.
-  Ltac crush := repeat (proj; inner; clean); proj; simpl; try congruence; auto.
+  (* residual arithmetic: the source may say m_used_size += 1 for ++m_used_size, < 1 for == 0, != 0 for > 0, ...;
+     the proofs below never depend on which of these forms the translator printed *)
+  Ltac b2p :=
+    repeat match goal with
+           | H : negb _ = true |- _ => apply Bool.negb_true_iff in H
+           | H : negb _ = false |- _ => apply Bool.negb_false_iff in H
+           | H : (_ <? _) = true |- _ => apply Nat.ltb_lt in H
+           | H : (_ <? _) = false |- _ => apply Nat.ltb_ge in H
+           | H : (_ =? _) = true |- _ => apply Nat.eqb_eq in H
+           | H : (_ =? _) = false |- _ => apply Nat.eqb_neq in H
+           | H : (_ <=? _) = true |- _ => apply Nat.leb_le in H
+           | H : (_ <=? _) = false |- _ => apply Nat.leb_gt in H
+           end.
+  Ltac arith := solve [ b2p; first [ exfalso; lia | f_equal; lia | lia ] ].
+  (* two boolean tests over nat that say the same thing *)
+  Ltac bdestr :=
+    repeat match goal with
+           | |- context [?a <? ?b] => destruct (Nat.ltb_spec a b)
+           | |- context [?a <=? ?b] => destruct (Nat.leb_spec a b)
+           | |- context [?a =? ?b] => destruct (Nat.eqb_spec a b)
+           end.
+  Ltac barith := solve [ reflexivity | bdestr; cbn [negb andb orb]; first [ reflexivity | exfalso; lia ] ].
+  (* [same c d]: the test [c] of the generated code is rewritten into the test [d] of the literal machine *)
+  Ltac same c d := first [ constr_eq c d | let E := fresh "E" in assert (E : c = d) by barith; rewrite E; clear E ].
+  (* [samen a b]: same for two numbers *)
+  Ltac samen a b := first [ constr_eq a b | let E := fresh "E" in assert (E : a = b) by lia; rewrite E; clear E ].
+  (* the test on which the literal machine (right-hand side) branches next *)
+  Ltac lit_if := match goal with |- req _ (if ?d then _ else _) => destruct d
+                            | |- req _ (bind (if ?d then _ else _) _) => destruct d end.
+  Ltac crush := repeat (proj; inner; clean); proj; simpl; try congruence; auto; try arith.
   Ltac callee L := let P := fresh "P" in pose proof L as P; unfold req in P; revert P.
-  Ltac finish := intros; clean; subst; try contradiction; try congruence; auto.
+  Ltac finish := intros; clean; subst; try contradiction; try congruence; auto; try arith.
 
   (* ---- vector algebra used to join several field writes into one ---- *)
   Lemma vget_upd A w (l : list A) i x : i < List.length l -> vget w (upd_nth i x l) i = Ok x.
@@ -72,8 +101,8 @@ Section LfudaBridge.
   Lemma dcell_ext (a b : dcell K V) :
     dc_keyed a = dc_keyed b -> dc_lfu a = dc_lfu b -> dc_age a = dc_age b -> dc_val a = dc_val b -> a = b.
   Proof. destruct a, b; cbn; intros; subst; reflexivity. Qed.
-  Ltac rec_eq := apply lfdl_ext; proj; try reflexivity; try congruence;
-                 try (f_equal; try reflexivity; apply dcell_ext; proj; try reflexivity; try congruence).
+  Ltac rec_eq := apply lfdl_ext; proj; try reflexivity; try congruence; try lia; try (f_equal; lia);
+                 try (f_equal; try reflexivity; apply dcell_ext; proj; try reflexivity; try congruence; try lia).
   Ltac okeq := cbn [req]; first [ rec_eq | f_equal; rec_eq ].
 
   Lemma g_do_access_ok (s : lfdl K V) (n : nat) now :
@@ -91,9 +120,9 @@ Section LfudaBridge.
     destruct (l_prev (dl_list s) (dl_end s)) as [last|]; [|simpl; auto]. vnorm N L.
     rewrite Ek, A. vnorm N L.
     destruct (iter_eqb (It kn) last); cbn [negb]; vnorm N L.
-    - rewrite Nat.add_1_r. okeq.
+    - okeq.
     - destruct (l_splice (dl_list s) (dl_end s) (It kn)) as [l|]; [|simpl; auto]. vnorm N L.
-      rewrite Nat.add_1_r. okeq.
+      okeq.
   Qed.
 
   Lemma g_do_erase_ok (s : lfdl K V) (n : nat) : req (g_do_erase s (It n)) (dl_do_erase s n).
@@ -160,15 +189,15 @@ Section LfudaBridge.
       - cbn [l_deref]. rewrite M. vnorm N L.
         destruct (mm_deref (dl_mm s) (dc_lfu e)) as [c|]; [|simpl; auto]. vnorm N L.
         destruct (mm_erase (dl_mm s) (dc_lfu e)) as [m1|]; [|simpl; auto]. cbn [it_node]. vnorm N L.
-        match goal with |- req (bind (whileB _ _ _ (?S1, _, _, _)) _) (dl_age_loop _ ?S2 _ _ _) =>
-          pose proof (IH S2 (S aged) (It n)) as P; assert (E : S1 = S2) by rec_eq end.
+        match goal with |- req (bind (whileB _ _ _ (?S1, ?A1, _, _)) _) (dl_age_loop _ ?S2 _ _ ?A2) =>
+          pose proof (IH S2 A2 (It n)) as P; assert (E : S1 = S2) by rec_eq; samen A1 A2 end.
         rewrite E. proj. exact P.
       - destruct (l_splice (dl_list s) da_last (It n)) as [l|] eqn:Sp; [|simpl; auto]. red1.
         cbn [l_deref]. rewrite (l_splice_mem _ _ _ _ n Sp), M. vnorm N L.
         destruct (mm_deref (dl_mm s) (dc_lfu e)) as [c|]; [|simpl; auto]. vnorm N L.
         destruct (mm_erase (dl_mm s) (dc_lfu e)) as [m1|]; [|simpl; auto]. cbn [it_node]. vnorm N L.
-        match goal with |- req (bind (whileB _ _ _ (?S1, _, _, _)) _) (dl_age_loop _ ?S2 _ _ _) =>
-          pose proof (IH S2 (S aged) (It n)) as P; assert (E : S1 = S2) by rec_eq end.
+        match goal with |- req (bind (whileB _ _ _ (?S1, ?A1, _, _)) _) (dl_age_loop _ ?S2 _ _ ?A2) =>
+          pose proof (IH S2 A2 (It n)) as P; assert (E : S1 = S2) by rec_eq; samen A1 A2 end.
         rewrite E. proj. exact P. }
     apply G.
   Qed.
@@ -177,7 +206,8 @@ Section LfudaBridge.
   Lemma g_do_prune_ok (s : lfdl K V) now : req (g_do_prune s now) (dl_do_prune true s now).
   Proof.
     unfold g_do_prune, dl_do_prune.
-    destruct (0 <? dl_used s); [|simpl; auto]. red1.
+    match goal with |- req (bind (if ?c then _ else _) _) (if ?d then _ else _) => same c d end.
+    lit_if; [|simpl; auto]. red1.
     callee (g_do_dynamic_age_ok s now).
     destruct (g_do_dynamic_age s now) as [[s1 a1]|], (dl_dynamic_age s now) as [[s2 a2]|]; red1; intros P; try contradiction; auto.
     inversion P; subst. unfold mm_second, mm_begin.
@@ -233,12 +263,13 @@ Section LfudaBridge.
     assoc k (dl_index s) = None -> req (g_do_insert s k v now) (dl_do_insert true s k v now).
   Proof.
     intros A. unfold g_do_insert, dl_do_insert.
+    match goal with |- req (bind (if ?c then _ else _) _) (bind (if ?d then _ else _) _) => same c d end.
     apply req_bind.
-    - destruct (List.length (dl_list s) <=? dl_used s); [|simpl; auto].
+    - lit_if; [|simpl; auto].
       callee (g_do_prune_ok s now). unfold bind. crush; finish.
     - intros s1 E1.
       assert (A1 : assoc k (dl_index s1) = None).
-      { destruct (List.length (dl_list s) <=? dl_used s); [|inversion E1; subst; auto].
+      { match type of E1 with (if ?d then _ else _) = _ => destruct d end; [|inversion E1; subst; auto].
         pose proof (g_do_prune_ok s now) as P. unfold bind in E1.
         destruct (g_do_prune s now) eqn:G; [|discriminate]. inversion E1; subst.
         destruct (dl_do_prune true s now) eqn:L; simpl in P; [|contradiction]. subst.
@@ -348,7 +379,8 @@ Section LfudaBridge.
     { clear. induction l as [|[[z k] v] r IH]; intros s n; simpl; auto.
       callee (g_do_insert_update_ok s k v clk a). unfold bind at 1 2 3.
       destruct (g_do_insert_update s k v clk a) as [[s1 b]|], (dl_ins true s k v a clk) as [[s2 b2]|]; intros P; try contradiction; auto.
-      inversion P; subst. destruct b2; cbn [bind]; apply IH. }
+      inversion P; subst. destruct b2; cbn [bind];
+        match goal with |- req (foldM _ _ (_, ?n1)) (dl_ins_range _ _ _ _ _ ?n2) => samen n1 n2 end; apply IH. }
     specialize (G l s 0). revert G.
     destruct (foldM _ _ _) as [[s' n']|]; cbn [bind]; auto.
   Qed.
@@ -363,7 +395,7 @@ Section LfudaBridge.
       destruct (assoc k (dl_index s)) as [idx|] eqn:A; cbn [bind]; [|apply IH].
       rewrite A. cbn [bind]. callee (g_do_erase_ok s idx).
       destruct (g_do_erase s (It idx)) as [s1|], (dl_do_erase s idx) as [s2|]; simpl; intros P; try contradiction; auto.
-      subst. apply IH. }
+      subst. match goal with |- req (foldM _ _ (_, ?n1)) (dl_erase_range _ _ ?n2) => samen n1 n2 end. apply IH. }
     specialize (G l s 0). revert G.
     destruct (foldM _ _ _) as [[s' n']|]; cbn [bind]; auto.
   Qed.
@@ -436,7 +468,8 @@ Section LfudaBridge.
   Theorem g_step_ok (s : lfdl K V) (e : ev K V) :
     req (g_step s e) (dl_step true s (e_op e) (e_now e) (e_rnd e)).
   Proof.
-    unfold g_step, dl_step. destruct (e_op e); try (simpl; auto; fail).
+    unfold g_step, dl_step. destruct (e_op e); try (simpl; auto; fail);
+      try (try unfold g_size; try unfold g_empty; try unfold g_capacity; cbn [bind req]; barith; fail).
     - unfold g_insert. callee (g_do_insert_update_ok s k v (e_now e) a). unfold bind. crush; finish.
     - callee (g_insert_range_ok (e_now e) s l a). unfold bind. crush; finish.
     - callee (g_erase_ok s k). unfold bind. crush; finish.
